@@ -5,8 +5,20 @@ import os, sys, json, re, subprocess, glob
 ROOT = os.path.dirname(os.path.dirname(os.path.abspath(__file__)))
 sys.path.insert(0, os.path.join(ROOT, 'lib'))
 import registry
-KANI_FILES = {'C18': 'canonicalize.rs', 'C20': 'braille.rs', 'C07': 'speech.rs', 'C13': 'tts.rs'}
-only = sys.argv[1:]
+KANI_FILES = {'C18': 'canonicalize.rs', 'C20': 'braille.rs', 'C07': 'speech.rs', 'C13': 'tts.rs', 'C17': 'interface.rs'}
+only = [a for a in sys.argv[1:] if not a.startswith('--')]
+RESUME = '--resume' in sys.argv
+import vunit, kunit
+def files_of(prop):
+    fs = set()
+    for u in registry.PROPS[prop].get('verus', []):
+        for sec in vunit.parse_spec(os.path.join(ROOT, 'contracts', u + '.spec')):
+            if sec.kind in ('fn', 'item'):
+                fs.add(sec.arg.split('::')[0].strip())
+    for k in registry.PROPS[prop].get('kani', []):
+        fs.add({'U18a': 'canonicalize.rs', 'U20a': 'braille.rs', 'U07b': 'speech.rs', 'U13a': 'tts.rs', 'U03a': 'canonicalize.rs', 'U17a': 'interface.rs'}.get(k, ''))
+    return fs
+PROP_FILES = {p: files_of(p) for p in registry.PROPS}
 rows = []
 for d in sorted(glob.glob(os.path.join(ROOT, 'seeded', '*'))):
     sid = os.path.basename(d)
@@ -16,6 +28,9 @@ for d in sorted(glob.glob(os.path.join(ROOT, 'seeded', '*'))):
     if not os.path.exists(patch):
         continue
     files = set(re.findall(r'^\+\+\+ b/src/(\S+)', open(patch).read(), re.M))
+    if RESUME and os.path.exists(os.path.join(d, 'meta.json')) and 'detection' in json.load(open(os.path.join(d, 'meta.json'))):
+        m0 = json.load(open(os.path.join(d, 'meta.json')))['detection']
+        rows.append((sid, m0['status'], m0['failed_obligations'] or m0['undecided_units'])); continue
     subprocess.run(['git', '-C', '/repo', 'checkout', '--', '.'], check=True)
     ap = subprocess.run(['git', '-C', '/repo', 'apply', patch], capture_output=True, text=True)
     if ap.returncode != 0:
@@ -23,6 +38,8 @@ for d in sorted(glob.glob(os.path.join(ROOT, 'seeded', '*'))):
     res = {}
     try:
         for prop in registry.PROPS:
+            if not (PROP_FILES[prop] & files) and prop != sid.split('_')[0]:
+                continue
             env = dict(os.environ)
             if not (prop in KANI_FILES and KANI_FILES[prop] in files):
                 env['VERIF_SKIP_KANI'] = '1'
